@@ -96,7 +96,15 @@ def run(tier, seed, replay=None):
         lang = T.LANGS[i % 4]
         L = langs[lang]
         is_dir = i >= ntab
-        if is_dir:
+        if is_dir and i % 3 == 0:
+            # deep nominal hierarchies whose generic classes are only INDIRECT subclasses: K1 <- K2 <- K3<T> (<- K4<T>), Other
+            g3 = ("V", 30, rng.choice([0, 0, 1]), None)
+            tab = {1: ([], []), 2: ([], [("C", 1)]), 3: ([g3], [("C", 2)]), 5: ([], [])}
+            if rng.random() < 0.5:
+                tab[4] = ([("V", 40, 0, None)], [("A", 3, [("V", 40, 0, None)])])
+            if rng.random() < 0.5:
+                tab[6] = ([("V", 60, 0, None)], [])
+        elif is_dir:
             # dependent-bound tables: Foo, Bar : Foo, Box<T>, X<v1 T1, v2 T2 : T1 | Box<T1>> (+ a generic subclass of X)
             v1, v2 = rng.choice([0, 1, 2]), rng.choice([0, 1, 2])
             t1 = ("V", 40, v1, None)
@@ -133,7 +141,9 @@ def run(tier, seed, replay=None):
                         for wrap in (boxed, ("W", 1, boxed)):
                             args_ = [a_ if q[1] == p_[3][2][0][1] else (wrap if q is p_ else a_) for q in ps_]
                             directed.append(("A", cid_, args_))
-        if is_dir:
+        if is_dir and i % 3 == 0:
+            directed = [("C", 1), ("C", 2), ("C", 5), ("A", 3, [("C", 5)])] * 4
+        elif is_dir:
             directed = directed * 3         # the searches draw at random: ask each directed query several times
         nrand = 3 if is_dir else 12
         for qi in range(nrand + len(directed)):
